@@ -1056,6 +1056,26 @@ fn c15(seed: u64, thorough: bool) -> Scenario {
     }
 }
 
+/// The scripted / AI blocks reach their validators through a diff: whole files added, one-line
+/// edits (only the blocks around the edited line are then evaluated), renamed-and-edited files.
+fn diff_mode_for_async_worlds(g: &mut Gen) {
+    g.world.stdin = StdinSpec::Piped;
+    let n = g.world.files.len();
+    for i in 0..n {
+        match g.rng.below(8) {
+            0..=4 => g.world.files[i].diff = FileDiff::Added,
+            5 | 6 => {
+                if let Some(l) = g.pick_insert_line(i) {
+                    g.world.files[i].diff = FileDiff::Insert { line: l, renamed_from: None, edit: LineEdit::Inserted };
+                    g.vary_edit(i);
+                    g.maybe_rename(i);
+                }
+            }
+            _ => {}
+        }
+    }
+}
+
 // ------------------------------------------------------------------------------------------ C18
 
 fn c18(seed: u64, thorough: bool) -> Scenario {
@@ -1132,14 +1152,8 @@ fn c18(seed: u64, thorough: bool) -> Scenario {
     } else {
         tags.push("cfg=fault-free".into());
     }
-    if g.rng.chance(1, 4) {
-        g.world.stdin = StdinSpec::Piped;
-        let n = g.world.files.len();
-        for i in 0..n {
-            if g.rng.chance(3, 4) {
-                g.world.files[i].diff = FileDiff::Added;
-            }
-        }
+    if g.rng.chance(1, 3) {
+        diff_mode_for_async_worlds(&mut g);
     }
     let (world, mut plan) = g.finish();
     // completion-order shaping: sometimes make the failing script the slowest or the fastest
@@ -1259,6 +1273,9 @@ fn c19(seed: u64, thorough: bool) -> Scenario {
         env_fault = Some("refuse");
         tags.push("cfg=fault".into());
         tags.push("fault=refused".into());
+    }
+    if g.rng.chance(1, 4) {
+        diff_mode_for_async_worlds(&mut g);
     }
     let (mut world, mut plan) = g.finish();
     match env_fault {
